@@ -151,6 +151,10 @@ C41_RequestedNeeded(m, disk0, store0, req, ret) ==
      /\ LET cand == {q \in FilePaths(m.cache) : At(m.cache, q).d = req[i].d}
         IN ~(cand # {} /\ \A q \in cand : IsFileWith(disk0, q, req[i].d))
 
+\* the controller's own check of Stage's answer (safety.go filteredPathsAreSubset)
+\* accepts exactly the in-order subsequences
+C41_ControllerSubsetCheck(filtered, original, out) == out = IsSubseq(filtered, original)
+
 \* staging never touches the root
 C41_StageLeavesRoot(disk0, disk1) == disk1 = disk0
 
